@@ -327,6 +327,10 @@ func (hp *hPlugin) callOutcome(seqNr uint64, prev llo.Outcome, aos []types.Attri
 	if err != nil {
 		return llo.Outcome{}, nil, resErr(errClass(err, outcomeErrClasses...), err)
 	}
+	// … and the agreed outcome of this round is written to that same buffer; everything after (decoding it, Reports(),
+	// the next round) reads it from there
+	hp.prevBuf = append(hp.prevBuf[:0], outB...)
+	outB = hp.prevBuf
 	o, err := hp.p.OutcomeCodec.Decode(outB)
 	if err != nil {
 		return llo.Outcome{}, nil, resErr("decode-result", err)
